@@ -17,6 +17,9 @@ pub enum REv {
     WaitWritten(usize),
     /// never readable again: a silent, open peer
     Silent,
+    /// nothing arrives for this many milliseconds of (virtual) time
+    Delay(u64),
+    Until(tokio::time::Instant),
 }
 
 #[derive(Debug, Clone)]
@@ -37,6 +40,27 @@ pub struct Shared {
     pub trace_on: bool,
     pub writes_after_fail: usize,
     pub failed: bool,
+    /// unified chronological log (hook events are drained into it before every stream event)
+    pub ulog: Option<Arc<Mutex<Vec<String>>>>,
+}
+
+/// move the library's trace-point events (feature verif-hooks) into the unified log
+pub fn sync_hooks(ulog: &Arc<Mutex<Vec<String>>>) {
+    use diameter::verif::Event;
+    let evs = diameter::verif::take_events();
+    if evs.is_empty() {
+        return;
+    }
+    let mut u = ulog.lock().unwrap();
+    for e in evs {
+        u.push(match e {
+            Event::Registered(h) => format!("reg:{}", h),
+            Event::SendRefused(h) => format!("refused:{}", h),
+            Event::Removed(h, f) => format!("rm:{}:{}", h, f as u8),
+            Event::Delivered(h, ok) => format!("dl:{}:{}", h, ok as u8),
+            Event::ReaderStopped => "stop".to_string(),
+        });
+    }
 }
 
 #[derive(Clone)]
@@ -61,6 +85,7 @@ pub fn parse_revs(s: &str) -> Option<Vec<REv>> {
                 "s" => REv::Silent,
                 _ if t.starts_with("d:") => REv::Data(crate::util::unhex(&t[2..])?),
                 _ if t.starts_with("w:") => REv::WaitWritten(t[2..].parse().ok()?),
+                _ if t.starts_with("t:") => REv::Delay(t[2..].parse().ok()?),
                 _ => return None,
             })
         })
@@ -115,6 +140,22 @@ impl AsyncRead for Scripted {
                     cx.waker().wake_by_ref();
                     return Poll::Pending;
                 }
+                Some(REv::Delay(ms)) => {
+                    s.rd.push_front(REv::Until(tokio::time::Instant::now() + std::time::Duration::from_millis(ms)));
+                    continue;
+                }
+                Some(REv::Until(t)) => {
+                    if tokio::time::Instant::now() >= t {
+                        continue;
+                    }
+                    s.rd.push_front(REv::Until(t));
+                    let w = cx.waker().clone();
+                    tokio::spawn(async move {
+                        tokio::time::sleep_until(t).await;
+                        w.wake();
+                    });
+                    return Poll::Pending;
+                }
                 Some(REv::WaitWritten(n)) => {
                     if s.written.len() >= n {
                         continue;
@@ -132,6 +173,10 @@ impl AsyncRead for Scripted {
                     let k = d.len().min(buf.remaining());
                     buf.put_slice(&d[..k]);
                     s.consumed += k;
+                    if let Some(u) = s.ulog.clone() {
+                        sync_hooks(&u);
+                        u.lock().unwrap().push(format!("rd:{}", k));
+                    }
                     if k < d.len() {
                         s.rd.push_front(REv::Data(d[k..].to_vec()));
                     }
@@ -170,6 +215,10 @@ impl AsyncWrite for Scripted {
                     return Poll::Ready(Ok(0));
                 }
                 s.written.extend_from_slice(&data[..k]);
+                if let Some(u) = s.ulog.clone() {
+                    sync_hooks(&u);
+                    u.lock().unwrap().push(format!("wr:{}", k));
+                }
                 if s.trace_on {
                     s.trace.push(format!("wr {}", k));
                 }
